@@ -682,3 +682,23 @@ Fixpoint insert_keyed (k : bytes) (v : pv) (l : list (bytes * pv)) : list (bytes
 
 Definition sort_keyed (l : list (bytes * pv)) : list pv :=
   map snd (fold_left (fun acc kv => insert_keyed (fst kv) (snd kv) acc) l []).
+
+(* EnumClass(value) for an enum whose members are objects with a "value" field: the member or ValueError *)
+Fixpoint py_enum_member (members : list pv) (v : pv) : pr pv :=
+  match members with
+  | [] => match v with VObj _ _ | VFloat None => PStuck | _ => PRaise ValueError end
+  | m :: r =>
+      match m with
+      | VObj _ fs =>
+          match fassoc "value" fs with
+          | Some mv => match py_eq mv v with
+                       | POk true => POk m
+                       | POk false => py_enum_member r v
+                       | PRaise e => PRaise e
+                       | PStuck => PStuck
+                       end
+          | None => PStuck
+          end
+      | _ => PStuck
+      end
+  end.
